@@ -29,6 +29,11 @@ def groups(L, quick, action, prefix="G", nul=False):
         out.append(H.Group([(name, True)], rules, name, b"abc\n" if any(i == 2 for i in idx) else b"ab\n", L,
                            label="reject:" + " ; ".join(P[i][0] for i in idx)))
     if nul:
+        # ordinary rule sets scanned over inputs containing NUL: the automaton jams on the NUL right after matched text
+        for k, idx in enumerate([(0, 1, 4), (3, 9, 1), (4, 0, 10), (1, 0)]):
+            name = "%sJ%d" % (prefix, k)
+            rules = [H.Rule(P[i][1], trail=P[i][2], scs=[name], action=action) for i in idx]
+            out.append(H.Group([(name, True)], rules, name, b"ab\0", L, label="reject+NUL-input:" + " ; ".join(P[i][0] for i in idx)))
         Z = R.lit(0)
         name = prefix + "Z"
         rules = [H.Rule(r, scs=[name], action=action) for r in (Z, R.cat(A, Z), R.plus(R.cset(b"a\0")), R.cat(A, Z, A))]
@@ -69,7 +74,9 @@ def run(tier):
     J("REJECT", groups(L - 1, True, rej.replace("yyreject();", "REJECT;")), knobs)
     J("optreject", groups(L - 1, True, rej)[:60], knobs, options=["reject"])
     J("reentrant", groups(L - 1, True, H.ops_action([H.OP_REJECT], "R"), nul=True), knobs, api="R", options=["reentrant"])
-    J("c99", groups(L - 1, True, H.ops_action([H.OP_REJECT], "C99"))[:80], knobs, api="C99")
+    c99g = groups(L - 1, True, H.ops_action([H.OP_REJECT], "C99"), nul=True)
+    J("c99", c99g[:80] + c99g[-5:], knobs, api="C99")
+    J("c99-Ce-one", c99g[:40] + c99g[-5:], dict(knobs, VF_READ_ONE=1, VF_BUFSIZES="0,8"), api="C99", flex_args=["-Ce"])
     J("array", groups(L - 1, True, rej)[:60], knobs, options=["array"], cdefs=["VF_ARRAY"])
     J("Ce-one", groups(L - 1, True, rej)[:80], dict(knobs, VF_READ_ONE=1, VF_BUFSIZES="0,8"), flex_args=["-Ce"])
     J("C-lineno", groups(L - 1, True, rej)[:80], dict(knobs, VF_CHECK_LINENO=1), flex_args=["-C"], options=["yylineno"])
